@@ -157,6 +157,45 @@ class Spline final {
       : Spline(Support<T>::createEmpty(std::move(grid)), {}){};
 
   /*!
+   * @brief Default copy constructor.
+   * @param s The spline to copy.
+   */
+  Spline(const Spline &s) = default;
+
+  /*!
+   * @brief Default move constructor.
+   * @param s The spline to move.
+   */
+  Spline(Spline &&s) noexcept = default;
+
+  /*!
+   * @brief Default destructor.
+   */
+  ~Spline() = default;
+
+  /*!
+   * Copy assignment operator. The coefficients are copied before this spline
+   * is touched, so the spline is left unchanged if the copy throws.
+   *
+   * @brief Copy assignment operator.
+   * @param s The spline to copy.
+   * @returns A reference to this spline.
+   */
+  Spline &operator=(const Spline &s) {
+    std::vector<std::array<T, ARRAY_SIZE>> coefficients(s._coefficients);
+    _support = s._support;
+    _coefficients = std::move(coefficients);
+    return *this;
+  }
+
+  /*!
+   * @brief Default move assignment operator.
+   * @param s The spline to move.
+   * @returns A reference to this spline.
+   */
+  Spline &operator=(Spline &&s) noexcept = default;
+
+  /*!
    * @brief Returns the spline's support.
    * @returns This spline's support.
    */
